@@ -1,37 +1,45 @@
 #!/usr/bin/env python3
-"""Generates the type catalogue and per-type harness code:
+"""Generates the type catalogue and the per-type harness code:
 
   harness/avro/zz_verif_gen_cat.go   (package avro: basic kinds)
-  harness/null/zz_verif_gen_cat.go   (package null: null.* wrappers, time.Time)
+  harness/null/zz_verif_gen_cat.go   (package null: null.* wrappers)
 
-For every catalogue struct type T it emits
-  verifFill_<T>(p *T, tag)        a fully symbolic value (bounded shapes)
-  verifDatum_<T>(p *T) refDatum    the logical Avro datum the spec assigns to *p
-                                   under the documented schema mapping
-  verifRT_<W>_<T>(in *W, out *T)   "out is what reading `in` back must give"
-                                   (documented normalisations only)
-and the harnesses that use them.  The catalogue is independent of /repo's
-source, so the generated files are committed; run this script to regenerate.
+Vocabulary
+  Ty   a Go type of the catalogue            Sd   an Avro schema shape
+  natural(ty)      the schema the documented mapping assigns to ty
+  fill(ty)         Go code: a fully symbolic value of ty (bounded shapes)
+  datum_under(sd, ty)  Go code: the logical Avro datum the specification assigns
+                   to a Go value of ty written under schema sd
+  rt(wt, tt)       Go code: "a value of tt is what reading a wt value gives"
+                   (documented normalisations only; wt != tt for C03/C04)
+The catalogue is independent of /repo's source, so the generated files are
+committed; run this script to regenerate them.
 """
-import os, sys
+import os
 
 OUT = os.path.join(os.path.dirname(os.path.abspath(__file__)), "..", "harness")
 
 INTS = ("int", "int16", "int32", "int64")
 FLOATS = ("float32", "float64")
 NULLS = ("nullint", "nullbool", "nullfloat", "nullstring")
+INT_RANGE = {"int16": (-32768, 32767), "int32": (-2147483648, 2147483647)}
 
 
+# ----------------------------------------------------------------- Go types
 class Ty:
-    def __init__(self, kind, elem=None, fields=None, name=None):
-        self.kind, self.elem, self.fields, self.name = kind, elem, fields, name
+    def __init__(self, kind, elem=None, fields=None, name=None, n=0, gotext=None):
+        self.kind, self.elem, self.fields, self.name, self.n, self.gotext = kind, elem, fields, name, n, gotext
 
     def go(self):
         k = self.kind
+        if self.gotext:
+            return self.gotext
         if k in INTS or k in FLOATS or k in ("bool", "string"):
             return k
         if k == "bytes":
             return "[]byte"
+        if k == "fixed":
+            return "[%d]byte" % self.n
         if k == "ptr":
             return "*" + self.elem.go()
         if k == "slice":
@@ -40,17 +48,7 @@ class Ty:
             return "map[string]" + self.elem.go()
         if k == "struct":
             return self.name
-        if k == "nullint":
-            return "null.Int"
-        if k == "nullbool":
-            return "null.Bool"
-        if k == "nullfloat":
-            return "null.Float"
-        if k == "nullstring":
-            return "null.String"
-        if k == "time":
-            return "time.Time"
-        raise ValueError(k)
+        return {"nullint": "null.Int", "nullbool": "null.Bool", "nullfloat": "null.Float", "nullstring": "null.String"}[k]
 
     def id(self):
         k = self.kind
@@ -62,30 +60,9 @@ class Ty:
             return "M" + self.elem.id()
         if k == "struct":
             return self.name
+        if k == "fixed":
+            return "fixed%d" % self.n
         return k
-
-    # schema shape under the documented mapping: one of
-    # boolean long double string bytes array map record union
-    def schema(self):
-        k = self.kind
-        if k == "bool":
-            return "boolean"
-        if k in INTS:
-            return "long"
-        if k in FLOATS:
-            return "double"
-        if k in ("string", "bytes"):
-            return k
-        if k == "slice":
-            return "array"
-        if k == "map":
-            return "map"
-        if k == "struct":
-            return "record"
-        if k == "ptr":
-            s = self.elem.schema()
-            return s if s in ("union", "array", "map") else "union"
-        return "union"  # null.*, time
 
 
 class Field:
@@ -96,7 +73,7 @@ class Field:
         if not self.name[0].isupper():
             return "-"
         t = self.tag
-        if t.startswith('bq:"-"'):
+        if 'bq:"-"' in t:
             return "-"
         if 'json:"' in t:
             body = t.split('json:"', 1)[1].split('"', 1)[0]
@@ -112,16 +89,6 @@ class Field:
             return False
         body = self.tag.split('json:"', 1)[1].split('"', 1)[0]
         return "omitempty" in body.split(",")[1:]
-
-
-def has_map(t):
-    if t.kind == "map":
-        return True
-    if t.kind in ("ptr", "slice"):
-        return has_map(t.elem)
-    if t.kind == "struct":
-        return any(has_map(f.ty) for f in t.fields)
-    return False
 
 
 def B(k):
@@ -140,21 +107,131 @@ def M(t):
     return Ty("map", elem=t)
 
 
+def FX(n):
+    return Ty("fixed", n=n)
+
+
+def has_map(t):
+    if t.kind == "map":
+        return True
+    if t.kind in ("ptr", "slice"):
+        return has_map(t.elem)
+    if t.kind == "struct":
+        return any(has_map(f.ty) for f in t.fields)
+    return False
+
+
+# ------------------------------------------------------------ schema shapes
+class Sd:
+    def __init__(self, kind, items=None, fields=None, branches=None, size=0, logical="", name=""):
+        self.kind, self.items, self.fields, self.branches = kind, items, fields, branches
+        self.size, self.logical, self.name = size, logical, name
+
+    def is_nullable_pair(self):
+        return self.kind == "union" and len(self.branches) == 2 and any(b.kind == "null" for b in self.branches)
+
+    def null_idx(self):
+        return 0 if self.branches[0].kind == "null" else 1
+
+    def lit(self, av):
+        """Go literal of the avro.Schema value."""
+        k = self.kind
+        if k == "union":
+            return "%sSchema{Type: \"union\", Union: []%sSchema{%s}}" % (av, av, ", ".join(b.lit(av) for b in self.branches))
+        if k in ("null", "boolean", "int", "long", "float", "double", "bytes", "string") and not self.logical:
+            return "%sSchema{Type: %r}" % (av, k).replace("'", '"')
+        parts = []
+        if self.logical:
+            parts.append("LogicalType: \"%s\"" % self.logical)
+        if self.name:
+            parts.append("Name: \"%s\"" % self.name)
+        if k == "fixed":
+            parts.append("Size: %d" % self.size)
+        if k == "array":
+            parts.append("Items: " + self.items.lit(av))
+        if k == "map":
+            parts.append("Values: " + self.items.lit(av))
+        if k == "record":
+            parts.append("Fields: []%sSchemaRecordField{%s}" % (av, ", ".join("{Name: \"%s\", Type: %s}" % (n, s.lit(av)) for n, s in self.fields)))
+        return "%sSchema{Type: \"%s\", Object: &%sSchemaObject{%s}}" % (av, k, av, ", ".join(parts))
+
+    def swapped(self):
+        """null moved to the other position in every nullable pair."""
+        k = self.kind
+        if k == "union":
+            bs = [b.swapped() for b in self.branches]
+            if self.is_nullable_pair():
+                bs = [bs[1], bs[0]]
+            return Sd("union", branches=bs)
+        if k in ("array", "map"):
+            return Sd(k, items=self.items.swapped())
+        if k == "record":
+            return Sd(k, fields=[(n, s.swapped()) for n, s in self.fields], name=self.name)
+        return self
+
+    def has_union(self):
+        k = self.kind
+        if k == "union":
+            return True
+        if k in ("array", "map"):
+            return self.items.has_union()
+        if k == "record":
+            return any(s.has_union() for _, s in self.fields)
+        return False
+
+
+def U(x):
+    return Sd("union", branches=[Sd("null"), x])
+
+
+def natural(t, omit=False):
+    k = t.kind
+    if k == "bool":
+        s = Sd("boolean")
+    elif k in INTS:
+        s = Sd("long")
+    elif k in FLOATS:
+        s = Sd("double")
+    elif k in ("string", "bytes"):
+        s = Sd(k)
+    elif k == "slice":
+        s = Sd("array", items=natural(t.elem))
+    elif k == "map":
+        s = Sd("map", items=natural(t.elem))
+    elif k == "struct":
+        s = Sd("record", name=t.name, fields=[(f.json_name(), natural(f.ty, f.omitempty())) for f in t.fields if f.json_name() != "-"])
+    elif k == "ptr":
+        e = natural(t.elem)
+        s = e if e.kind in ("union", "array", "map") else U(e)
+    elif k == "nullint":
+        s = U(Sd("long"))
+    elif k == "nullbool":
+        s = U(Sd("boolean"))
+    elif k == "nullfloat":
+        s = U(Sd("double"))
+    elif k == "nullstring":
+        s = U(Sd("string"))
+    else:
+        raise ValueError(k)
+    if omit and s.kind != "union":
+        s = U(s)
+    return s
+
+
+# ----------------------------------------------------------------- generator
 class Gen:
     def __init__(self, pkg):
         self.pkg = pkg
         self.av = "" if pkg == "avro" else "avro."
         self.out = []
         self.done = set()
-        self.structs = []
-        self.guardn = 0
+        self.ndatum = 0
 
     def w(self, s):
         self.out.append(s)
 
     def struct(self, name, fields):
         t = Ty("struct", fields=fields, name=name)
-        self.structs.append(t)
         lines = ["type %s struct {" % name]
         for i, f in enumerate(fields):
             if f.guard:
@@ -167,23 +244,22 @@ class Gen:
         return t
 
     # ---------- fill ----------
-    def fill(self, t, nested=False, nilonly=False):
-        sfx = ("_n" if nested else "") + ("_z" if nilonly else "")
+    def fill(self, t, nested=False, nilonly=False, wide=False):
+        sfx = ("_n" if nested else "") + ("_z" if nilonly else "") + ("_w" if wide else "")
         key = ("fill", t.id(), sfx)
         name = "verifFill_" + t.id() + sfx
         if key in self.done:
             return name
         self.done.add(key)
         maxlen = "verifMaxLenInner()" if nested else "verifMaxLen()"
-        inner = t.kind in ("slice", "map")
         k = t.kind
         body = []
         if k == "bool":
             body.append("*p = verifNondetBool(tag)")
         elif k in ("int", "int64"):
-            body.append("*p = %s(verifNarrow(tag))" % k)
+            body.append("*p = %s(%s(tag))" % (k, "verifNondetI64" if wide else "verifNarrow"))
         elif k == "int32":
-            body.append("*p = int32(verifNarrow(tag))")
+            body.append("*p = %s" % ("verifNondetI32(tag)" if wide else "int32(verifNarrow(tag))"))
         elif k == "int16":
             body.append("*p = verifNondetI16(tag)")
         elif k == "float32":
@@ -194,8 +270,10 @@ class Gen:
             body.append("*p = verifString(tag, verifChoice(tag+\".len\", verifMaxStr()+1))")
         elif k == "bytes":
             body.append("n := verifChoice(tag+\".len\", verifMaxStr()+1)\n\tif n == 0 && verifChoice(tag+\".nil\", 2) == 1 {\n\t\t*p = nil\n\t\treturn\n\t}\n\t*p = verifBytes(tag, n)")
+        elif k == "fixed":
+            body.append("copy(p[:], verifBytes(tag, %d))" % t.n)
         elif k == "ptr":
-            ef = self.fill(t.elem, nested)
+            ef = self.fill(t.elem, nested, False, wide)
             body.append("if verifChoice(tag+\".nil\", 2) == 1 {\n\t\t*p = nil\n\t\treturn\n\t}\n\t*p = new(%s)\n\t%s(*p, tag+\"*\")" % (t.elem.go(), ef))
         elif k == "slice":
             ef = self.fill(t.elem, True)
@@ -208,9 +286,9 @@ class Gen:
                 if f.json_name() == "-":
                     continue
                 nz = f.omitempty() and f.ty.kind == "map"
-                body.append("%s(&p.%s, tag+\".%s\")" % (self.fill(f.ty, nested, nz), f.name, f.name))
+                body.append("%s(&p.%s, tag+\".%s\")" % (self.fill(f.ty, nested, nz, wide), f.name, f.name))
         elif k == "nullint":
-            body.append("p.Valid = verifNondetBool(tag + \".valid\")\n\tp.Int64 = verifNarrow(tag)")
+            body.append("p.Valid = verifNondetBool(tag + \".valid\")\n\tp.Int64 = %s(tag)" % ("verifNondetI64" if wide else "verifNarrow"))
         elif k == "nullbool":
             body.append("p.Valid = verifNondetBool(tag + \".valid\")\n\tp.Bool = verifNondetBool(tag)")
         elif k == "nullfloat":
@@ -223,7 +301,6 @@ class Gen:
         self.w("func %s(p *%s, tag string) {\n\t%s\n}\n" % (name, t.go(), text))
         return name
 
-    # ---------- zero test (omitempty) ----------
     def iszero(self, t, e):
         k = t.kind
         if k == "bool":
@@ -232,75 +309,85 @@ class Gen:
             return "%s == 0" % e
         if k in ("string", "bytes", "slice", "map"):
             return "len(%s) == 0" % e
-        return None  # structs are never omitted; unions handled elsewhere
+        return None
 
-    # ---------- datum ----------
-    def datum(self, t):
-        key = ("datum", t.id())
-        name = "verifDatum_" + t.id()
-        if key in self.done:
-            return name
-        self.done.add(key)
+    # ---------- datum of a Go value under a schema ----------
+    def datum_under(self, sd, t, omit=False):
+        """returns the name of func(p *T) refDatum"""
+        self.ndatum += 1
+        name = "verifDatum%d_%s" % (self.ndatum, t.id())
         k = t.kind
         b = []
-        if k == "bool":
-            b.append("return refBool(*p)")
-        elif k in INTS:
-            b.append("return refLong(int64(*p))")
-        elif k == "float32":
-            b.append("d := float64(*p)\n\treturn refDouble(*(*uint64)(unsafe.Pointer(&d)))")
-        elif k == "float64":
-            b.append("return refDouble(*(*uint64)(unsafe.Pointer(p)))")
-        elif k == "string":
-            b.append("return refStr([]byte(*p))")
-        elif k == "bytes":
-            b.append("return refStr(*p)")
-        elif k == "slice":
-            ed = self.datum(t.elem)
-            b.append("d := refDatum{K: 'a'}\n\tfor i := range *p {\n\t\td.Items = append(d.Items, %s(&(*p)[i]))\n\t}\n\treturn d" % ed)
-        elif k == "map":
-            ed = self.datum(t.elem)
-            b.append("d := refDatum{K: 'm'}\n\tfor k, v := range *p {\n\t\tv := v\n\t\td.Keys = append(d.Keys, []byte(k))\n\t\td.Items = append(d.Items, %s(&v))\n\t}\n\treturn d" % ed)
-        elif k == "ptr":
-            ed = self.datum(t.elem)
-            es = t.elem.schema()
-            if es == "array":
-                b.append("if *p == nil {\n\t\treturn refDatum{K: 'a'}\n\t}\n\treturn %s(*p)" % ed)
-            elif es == "map":
-                b.append("if *p == nil {\n\t\treturn refDatum{K: 'm'}\n\t}\n\treturn %s(*p)" % ed)
-            elif es == "union":
-                b.append("if *p == nil {\n\t\treturn refUnion(0, refNull())\n\t}\n\treturn %s(*p)" % ed)
-            else:
-                b.append("if *p == nil {\n\t\treturn refUnion(0, refNull())\n\t}\n\treturn refUnion(1, %s(*p))" % ed)
-        elif k == "struct":
-            b.append("d := refDatum{K: 'r'}")
-            for f in t.fields:
-                if f.json_name() == "-":
-                    continue
-                fd = self.datum(f.ty)
-                if f.omitempty() and f.ty.schema() != "union":
-                    z = self.iszero(f.ty, "p." + f.name)
-                    if z is None:
-                        b.append("d.Items = append(d.Items, refUnion(1, %s(&p.%s)))" % (fd, f.name))
-                    else:
-                        b.append("if %s {\n\t\td.Items = append(d.Items, refUnion(0, refNull()))\n\t} else {\n\t\td.Items = append(d.Items, refUnion(1, %s(&p.%s)))\n\t}" % (z, fd, f.name))
+        if sd.is_nullable_pair():
+            ni = sd.null_idx()
+            xi = 1 - ni
+            X = sd.branches[xi]
+            null = "refUnion(%d, refNull())" % ni
+            if k == "ptr":
+                if t.elem.kind == "ptr" or t.elem.kind in NULLS:
+                    inner = self.datum_under(sd, t.elem)
+                    b.append("if *p == nil {\n\t\treturn %s\n\t}\n\treturn %s(*p)" % (null, inner))
                 else:
-                    b.append("d.Items = append(d.Items, %s(&p.%s))" % (fd, f.name))
+                    inner = self.datum_under(X, t.elem)
+                    b.append("if *p == nil {\n\t\treturn %s\n\t}\n\treturn refUnion(%d, %s(*p))" % (null, xi, inner))
+            elif k in NULLS:
+                base = {"nullint": ("int64", "Int64"), "nullbool": ("bool", "Bool"), "nullfloat": ("float64", "Float64"), "nullstring": ("string", "String")}[k]
+                inner = self.datum_under(X, B(base[0]))
+                b.append("if !p.Valid {\n\t\treturn %s\n\t}\n\treturn refUnion(%d, %s(&p.%s))" % (null, xi, inner, base[1]))
+            else:
+                inner = self.datum_under(X, t)
+                z = self.iszero(t, "*p") if omit else None
+                if z:
+                    b.append("if %s {\n\t\treturn %s\n\t}" % (z, null))
+                b.append("return refUnion(%d, %s(p))" % (xi, inner))
+        elif sd.kind in ("long", "int"):
+            assert k in INTS, (sd.kind, k)
+            b.append("return refLong(int64(*p))")
+        elif sd.kind == "boolean":
+            b.append("return refBool(*p)")
+        elif sd.kind == "double":
+            if k == "float32":
+                b.append("d := float64(*p)\n\treturn refDouble(*(*uint64)(unsafe.Pointer(&d)))")
+            else:
+                b.append("return refDouble(*(*uint64)(unsafe.Pointer(p)))")
+        elif sd.kind == "float":
+            if k == "float32":
+                b.append("return refFloat(*(*uint32)(unsafe.Pointer(p)))")
+            else:
+                b.append("f := float32(*p)\n\treturn refFloat(*(*uint32)(unsafe.Pointer(&f)))")
+        elif sd.kind == "string":
+            b.append("return refStr([]byte(*p))")
+        elif sd.kind == "bytes":
+            b.append("return refStr(*p)")
+        elif sd.kind == "fixed":
+            b.append("return refStr(p[:])")
+        elif sd.kind == "array":
+            if k == "ptr":
+                inner = self.datum_under(sd, t.elem)
+                b.append("if *p == nil {\n\t\treturn refDatum{K: 'a'}\n\t}\n\treturn %s(*p)" % inner)
+            else:
+                inner = self.datum_under(sd.items, t.elem)
+                b.append("d := refDatum{K: 'a'}\n\tfor i := range *p {\n\t\td.Items = append(d.Items, %s(&(*p)[i]))\n\t}\n\treturn d" % inner)
+        elif sd.kind == "map":
+            if k == "ptr":
+                inner = self.datum_under(sd, t.elem)
+                b.append("if *p == nil {\n\t\treturn refDatum{K: 'm'}\n\t}\n\treturn %s(*p)" % inner)
+            else:
+                inner = self.datum_under(sd.items, t.elem)
+                b.append("d := refDatum{K: 'm'}\n\tfor k, v := range *p {\n\t\tv := v\n\t\td.Keys = append(d.Keys, []byte(k))\n\t\td.Items = append(d.Items, %s(&v))\n\t}\n\treturn d" % inner)
+        elif sd.kind == "record":
+            b.append("d := refDatum{K: 'r'}")
+            gf = {f.json_name(): f for f in t.fields if f.json_name() != "-"}
+            for n, fs in sd.fields:
+                f = gf[n]
+                b.append("d.Items = append(d.Items, %s(&p.%s))" % (self.datum_under(fs, f.ty, f.omitempty()), f.name))
             b.append("return d")
-        elif k == "nullint":
-            b.append("if !p.Valid {\n\t\treturn refUnion(0, refNull())\n\t}\n\treturn refUnion(1, refLong(p.Int64))")
-        elif k == "nullbool":
-            b.append("if !p.Valid {\n\t\treturn refUnion(0, refNull())\n\t}\n\treturn refUnion(1, refBool(p.Bool))")
-        elif k == "nullfloat":
-            b.append("if !p.Valid {\n\t\treturn refUnion(0, refNull())\n\t}\n\treturn refUnion(1, refDouble(*(*uint64)(unsafe.Pointer(&p.Float64))))")
-        elif k == "nullstring":
-            b.append("if !p.Valid {\n\t\treturn refUnion(0, refNull())\n\t}\n\treturn refUnion(1, refStr([]byte(p.String)))")
         else:
-            raise ValueError(k)
+            raise ValueError("datum_under %s %s" % (sd.kind, k))
         self.w("func %s(p *%s) refDatum {\n\t%s\n}\n" % (name, t.go(), "\n\t".join(b)))
         return name
 
-    # ---------- round-trip relation: out is what reading `in` back gives ----------
+    # ---------- round-trip relation ----------
     def rt(self, wt, tt, omit=False):
         key = ("rt", wt.id(), tt.id(), omit)
         name = "verifRT_%s_%s%s" % (wt.id(), tt.id(), "_o" if omit else "")
@@ -309,7 +396,31 @@ class Gen:
         self.done.add(key)
         wk, tk = wt.kind, tt.kind
         b = []
-        if wk == "bool" and tk == "bool":
+        wnull = wk == "ptr" or wk in NULLS
+        if wk == "ptr" and wt.elem.kind in ("slice", "map") or tk == "ptr" and tt.elem.kind in ("slice", "map"):
+            # pointer to collection: nil pointer is identified with the empty collection
+            we = wt.elem if wk == "ptr" else wt
+            te = tt.elem if tk == "ptr" else tt
+            er = self.rt(we, te)
+            b.append("var ez %s\n\tvar oz %s\n\ti, o := &ez, &oz" % (we.go(), te.go()))
+            b.append("if *in != nil {\n\t\ti = *in\n\t}" if wk == "ptr" else "i = in")
+            b.append("if *out != nil {\n\t\to = *out\n\t}" if tk == "ptr" else "o = out")
+            b.append("return %s(i, o)" % er)
+        elif wk == "ptr" and tk == "ptr":
+            er = self.rt(wt.elem, tt.elem)
+            b.append("if *in == nil || *out == nil {\n\t\treturn *in == nil && *out == nil\n\t}\n\treturn %s(*in, *out)" % er)
+        elif wk == "ptr":
+            # pointer written, value target: null leaves the zero value
+            er = self.rt(wt.elem, tt)
+            b.append("if *in == nil {\n\t\tvar z %s\n\t\t_ = z\n\t\treturn %s\n\t}\n\treturn %s(*in, out)" % (tt.go(), self.eqzero(tt, "out", "z"), er))
+        elif tk == "ptr":
+            er = self.rt(wt, tt.elem)
+            if wk in NULLS:
+                b.append("if !in.Valid {\n\t\treturn *out == nil\n\t}")
+            elif omit and self.iszero(wt, "*in"):
+                b.append("if %s {\n\t\treturn *out == nil\n\t}" % self.iszero(wt, "*in"))
+            b.append("if *out == nil {\n\t\treturn false\n\t}\n\treturn %s(in, *out)" % er)
+        elif wk == "bool" and tk == "bool":
             b.append("return *in == *out")
         elif wk in INTS and tk in INTS:
             b.append("return int64(*in) == int64(*out)")
@@ -330,19 +441,14 @@ class Gen:
             b.append("return verifStrEq(*in, *out)")
         elif wk == "bytes" and tk == "bytes":
             b.append("return refBytesEq(*in, *out)")
+        elif wk == "fixed" and tk == "fixed":
+            b.append("return *in == *out")
         elif wk == "slice" and tk == "slice":
             er = self.rt(wt.elem, tt.elem)
             b.append("if len(*in) != len(*out) {\n\t\treturn false\n\t}\n\tacc := true\n\tfor i := range *in {\n\t\tacc = verifAnd(acc, %s(&(*in)[i], &(*out)[i]))\n\t}\n\treturn acc" % er)
         elif wk == "map" and tk == "map":
             er = self.rt(wt.elem, tt.elem)
             b.append("if len(*in) != len(*out) {\n\t\treturn false\n\t}\n\tacc := true\n\tfor k, v := range *in {\n\t\tv := v\n\t\tw, ok := (*out)[k]\n\t\tif !ok {\n\t\t\treturn false\n\t\t}\n\t\tacc = verifAnd(acc, %s(&v, &w))\n\t}\n\treturn acc" % er)
-        elif wk == "ptr" and tk == "ptr":
-            er = self.rt(wt.elem, tt.elem)
-            if wt.elem.schema() in ("array", "map"):
-                # nil pointer to a collection is identified with the empty collection
-                b.append("var ez %s\n\tvar oz %s\n\ti, o := &ez, &oz\n\tif *in != nil {\n\t\ti = *in\n\t}\n\tif *out != nil {\n\t\to = *out\n\t}\n\treturn %s(i, o)" % (wt.elem.go(), tt.elem.go(), er))
-            else:
-                b.append("if *in == nil || *out == nil {\n\t\treturn *in == nil && *out == nil\n\t}\n\treturn %s(*in, *out)" % er)
         elif wk == "struct" and tk == "struct":
             b.append("acc := true")
             tf = {f.json_name(): f for f in tt.fields if f.json_name() != "-"}
@@ -353,20 +459,48 @@ class Gen:
                 g = tf[jn]
                 b.append("acc = verifAnd(acc, %s(&in.%s, &out.%s))" % (self.rt(f.ty, g.ty, f.omitempty()), f.name, g.name))
             b.append("return acc")
-        elif wk == "nullint" and tk == "nullint":
-            b.append("if !in.Valid {\n\t\treturn !out.Valid\n\t}\n\treturn verifAnd(out.Valid, in.Int64 == out.Int64)")
-        elif wk == "nullbool" and tk == "nullbool":
-            b.append("if !in.Valid {\n\t\treturn !out.Valid\n\t}\n\treturn verifAnd(out.Valid, in.Bool == out.Bool)")
-        elif wk == "nullfloat" and tk == "nullfloat":
-            b.append("if !in.Valid {\n\t\treturn !out.Valid\n\t}\n\treturn verifAnd(out.Valid, *(*uint64)(unsafe.Pointer(&in.Float64)) == *(*uint64)(unsafe.Pointer(&out.Float64)))")
-        elif wk == "nullstring" and tk == "nullstring":
-            b.append("if !in.Valid {\n\t\treturn !out.Valid\n\t}\n\treturn verifAnd(out.Valid, verifStrEq(in.String, out.String))")
+        elif wk in NULLS and tk in NULLS and wk == tk:
+            fld = {"nullint": "Int64", "nullbool": "Bool", "nullfloat": "Float64", "nullstring": "String"}[wk]
+            if wk == "nullfloat":
+                e = "*(*uint64)(unsafe.Pointer(&in.Float64)) == *(*uint64)(unsafe.Pointer(&out.Float64))"
+            elif wk == "nullstring":
+                e = "verifStrEq(in.String, out.String)"
+            else:
+                e = "in.%s == out.%s" % (fld, fld)
+            b.append("if !in.Valid {\n\t\treturn !out.Valid\n\t}\n\treturn verifAnd(out.Valid, %s)" % e)
+        elif wk in NULLS:
+            # wrapper written, plain value target: null leaves zero
+            base = {"nullint": (B("int64"), "Int64"), "nullbool": (B("bool"), "Bool"), "nullfloat": (B("float64"), "Float64"), "nullstring": (B("string"), "String")}[wk]
+            er = self.rt(base[0], tt)
+            b.append("if !in.Valid {\n\t\tvar z %s\n\t\t_ = z\n\t\treturn %s\n\t}\n\treturn %s(&in.%s, out)" % (tt.go(), self.eqzero(tt, "out", "z"), er, base[1]))
+        elif tk in NULLS:
+            base = {"nullint": (B("int64"), "Int64"), "nullbool": (B("bool"), "Bool"), "nullfloat": (B("float64"), "Float64"), "nullstring": (B("string"), "String")}[tk]
+            er = self.rt(wt, base[0])
+            if omit and self.iszero(wt, "*in"):
+                b.append("if %s {\n\t\treturn !out.Valid\n\t}" % self.iszero(wt, "*in"))
+            b.append("return verifAnd(out.Valid, %s(in, &out.%s))" % (er, base[1]))
         else:
             raise ValueError("rt %s %s" % (wk, tk))
         self.w("func %s(in *%s, out *%s) bool {\n\t%s\n}\n" % (name, wt.go(), tt.go(), "\n\t".join(b)))
         return name
 
-    # guards of a struct value are intact
+    def eqzero(self, t, e, z):
+        """Go expression: *e equals the zero value *z of type t"""
+        k = t.kind
+        if k in ("bool",) or k in INTS or k in FLOATS or k in ("string", "fixed"):
+            if k in FLOATS:
+                return "*%s == 0" % e
+            return "*%s == %s" % (e, z)
+        if k in ("bytes", "slice", "map"):
+            return "len(*%s) == 0" % e
+        if k == "ptr":
+            return "*%s == nil" % e
+        if k in NULLS:
+            return "!%s.Valid" % e
+        if k == "struct":
+            return "true"
+        raise ValueError(k)
+
     def guards(self, t):
         name = "verifGuards_" + t.id()
         key = ("guards", t.id())
@@ -391,12 +525,11 @@ class Gen:
 
     # ---------- harnesses ----------
     def harness_rt(self, t, group):
-        """C01 + C02 on one type: write a symbolic value, reference-decode the
-        bytes (C02), read them back (C01)."""
-        fill, datum, rt = self.fill(t), self.datum(t), self.rt(t, t)
+        """C01 + C02 (+ guards for C05) on one type: write a symbolic value,
+        reference-decode the bytes, read them back."""
+        fill, rt = self.fill(t), self.rt(t, t)
+        datum = self.datum_under(natural(t), t)
         self.guards(t)
-        av = self.av
-        n = t.name
         self.w("""func verifHarness_C0102_%(group)s_%(n)s() {
 	s, err := %(av)sSchemaForType(%(n)s{})
 	verifAssert(err == nil, "C01:schema-generated")
@@ -436,8 +569,91 @@ class Gen:
 	}
 	verifReach("end")
 }
-""" % dict(group=group, n=n, av=av, fill=fill, datum=datum, rt=rt,
+""" % dict(group=group, n=t.name, av=self.av, fill=fill, datum=datum, rt=rt,
            obs='verifObserveInt("enclen", len(enc))' if has_map(t) else 'verifObserveBytes("enc", enc)'))
+
+    def harness_read(self, wt, tt, group, swap=False, wide=False):
+        """C03 + C04: a conformant writer (reference encoder with symbolic
+        writer-side choices) serialises a symbolic value of wt under wt's
+        generated schema; the library decodes into tt (compatible type,
+        projection, ...) and skips."""
+        sd = natural(wt)
+        if swap:
+            sd = sd.swapped()
+        fill = self.fill(wt, group == "proj", False, wide)
+        datum = self.datum_under(sd, wt)
+        rt = self.rt(wt, tt)
+        self.guards(tt)
+        fits = self.fits(wt, tt) if wide else None
+        name = "verifHarness_C0304_%s_%s_to_%s%s%s" % (group, wt.name, tt.name, "_nullsecond" if swap else "", "_wide" if wide else "")
+        self.w("""func %(name)s() {
+	s, err := %(av)sSchemaForType(%(w)s{})
+	verifAssume(err == nil)
+	if %(swap)s {
+		refSwapUnions(&s)
+	}
+	c, err := s.Codec(%(t)s{})
+	verifAssert(err == nil, "C03:codec-built-for-compatible-target")
+	if err != nil {
+		return
+	}
+	var in %(w)s
+	%(fill)s(&in, "v")
+	d := %(datum)s(&in)
+	ch := refSymbolicChoices(&d)
+	enc := refEncode(&s, &d, ch)
+	var out %(t)s
+	verifSetGuards_%(t)s(&out)
+	r := %(av)sNewReadBuf(enc)
+	err = c.Read(r, unsafe.Pointer(&out))
+	%(check)s
+	// C04: skipping consumes exactly what decoding consumes
+	var empty struct{}
+	ce, err2 := s.Codec(empty)
+	verifAssert(err2 == nil, "C04:codec-built-for-empty-struct")
+	if err2 == nil {
+		r2 := %(av)sNewReadBuf(enc)
+		err2 = ce.Read(r2, unsafe.Pointer(&empty))
+		verifAssert(err2 == nil, "C04:skip-ok")
+		verifAssert(err2 != nil || r2.Len() == 0, "C04:skip-consumes-all")
+	}
+	verifReach("end")
+}
+""" % dict(name=name, av=self.av, w=wt.name, t=tt.name, fill=fill, datum=datum, swap="true" if swap else "false",
+           check=("""if %(fits)s {
+		verifAssert(err == nil, "C03:read-ok")
+		if err == nil {
+			verifAssert(r.Len() == 0, "C03:read-consumes-all")
+			verifAssert(%(rt)s(&in, &out), "C03:decoded-value-is-the-datum")
+		}
+		verifReach("fits")
+	} else {
+		verifAssert(err != nil, "C03:value-that-does-not-fit-is-an-error")
+		verifReach("overflow")
+	}
+	verifAssert(verifGuards_%(t)s(&out), "C05:guards-intact")""" if fits else """verifAssert(err == nil, "C03:read-ok")
+	if err == nil {
+		verifAssert(r.Len() == 0, "C03:read-consumes-all")
+		verifAssert(%(rt)s(&in, &out), "C03:decoded-value-is-the-datum")
+		verifAssert(verifGuards_%(t)s(&out), "C05:guards-intact")
+	}""") % dict(rt=rt, t=tt.name, fits=fits)))
+        if group == "proj" and wt is not tt:
+            self.out[-1] = self.out[-1].replace("C03:decoded-value-is-the-datum", "C04:projected-fields-keep-their-values")
+
+    def fits(self, wt, tt):
+        """Go bool expression over `in`: every integer of in fits its target field"""
+        conds = []
+        tf = {f.json_name(): f for f in tt.fields if f.json_name() != "-"}
+        for f in wt.fields:
+            jn = f.json_name()
+            if jn == "-" or jn not in tf:
+                continue
+            g = tf[jn]
+            a, b2 = f.ty, g.ty
+            if a.kind in INTS and b2.kind in INT_RANGE:
+                lo, hi = INT_RANGE[b2.kind]
+                conds.append("int64(in.%s) >= %d && int64(in.%s) <= %d" % (f.name, lo, f.name, hi))
+        return " && ".join(conds) if conds else "true"
 
     def header(self, imports):
         return "// Code generated by gen/gen_catalogue.py; DO NOT EDIT.\n\npackage %s\n\nimport (\n%s)\n\n" % (
@@ -483,70 +699,169 @@ func verifStrEq(a, b string) bool {
 """
 
 
+def two(name_ty_tag):
+    return name_ty_tag
+
+
 def catalogue_avro(g):
     leafs = ["bool", "int", "int16", "int32", "int64", "float32", "float64", "string", "bytes"]
+    cat = {}
     types = []
-    # depth 1: every leaf kind as plain field, omitempty field, pointer, slice, map value
+
+    def add(group, name, fields):
+        t = g.struct(name, fields)
+        types.append((group, t))
+        cat[name] = t
+        return t
+
+    Z = lambda: Field("Z", B("int64"), 'json:"z"')
     for k in leafs:
         K = k.capitalize()
-        types.append(("leaf", g.struct("verifL_%s" % K, [Field("A", B(k)), Field("Z", B("int64"), 'json:"z"')])))
-        types.append(("omit", g.struct("verifO_%s" % K, [Field("A", B(k), 'json:"a,omitempty"'), Field("Z", B("int64"))])))
-        types.append(("ptr", g.struct("verifP_%s" % K, [Field("A", P(B(k))), Field("Z", B("int64"))])))
+        add("leaf", "verifL_%s" % K, [Field("A", B(k)), Z()])
+        add("omit", "verifO_%s" % K, [Field("A", B(k), 'json:"A,omitempty"'), Z()])
+        add("ptr", "verifP_%s" % K, [Field("A", P(B(k))), Z()])
         if k != "bytes":
-            types.append(("slice", g.struct("verifS_%s" % K, [Field("A", S(B(k))), Field("Z", B("int64"))])))
-        types.append(("map", g.struct("verifM_%s" % K, [Field("A", M(B(k))), Field("Z", B("int64"))])))
-    # tagging variants
-    types.append(("tags", g.struct("verifTags1", [
+            add("slice", "verifS_%s" % K, [Field("A", S(B(k))), Z()])
+        add("map", "verifM_%s" % K, [Field("A", M(B(k))), Z()])
+    add("tags", "verifTags1", [
         Field("A", B("int64"), 'json:"-"'), Field("B", B("string"), 'json:"bee"'), Field("c", B("int64")),
-        Field("D", B("int64"), 'bq:"-"'), Field("E", B("bool"), 'json:",omitempty"'), Field("F", B("int32"), 'json:"f,string,omitempty"')])))
-    # depth 2 shapes
+        Field("D", B("int64"), 'bq:"-"'), Field("E", B("bool"), 'json:",omitempty"'), Field("F", B("int32"), 'json:"f,string,omitempty"')])
     inner = g.struct("verifInner", [Field("X", B("int64")), Field("Y", B("string"), 'json:"y,omitempty"')])
-    types.append(("nest", g.struct("verifN_Struct", [Field("A", inner), Field("Z", B("int64"))])))
-    types.append(("nest", g.struct("verifN_PtrStruct", [Field("A", P(inner)), Field("Z", B("int64"))])))
-    types.append(("nest", g.struct("verifN_SliceStruct", [Field("A", S(inner)), Field("Z", B("int64"))])))
-    types.append(("nest", g.struct("verifN_MapStruct", [Field("A", M(inner)), Field("Z", B("int64"))])))
-    types.append(("nest", g.struct("verifN_OmitStruct", [Field("A", inner, 'json:"a,omitempty"'), Field("Z", B("int64"))])))
-    types.append(("deep", g.struct("verifD_PtrPtr", [Field("A", P(P(B("int64")))), Field("Z", B("int64"))])))
-    types.append(("deep", g.struct("verifD_PtrSlice", [Field("A", P(S(B("int64")))), Field("Z", B("int64"))])))
-    types.append(("deep", g.struct("verifD_PtrMap", [Field("A", P(M(B("int64")))), Field("Z", B("int64"))])))
-    types.append(("deep", g.struct("verifD_SlicePtr", [Field("A", S(P(B("int64")))), Field("Z", B("int64"))])))
-    types.append(("deep", g.struct("verifD_MapPtr", [Field("A", M(P(B("int64")))), Field("Z", B("int64"))])))
-    types.append(("deep", g.struct("verifD_SliceSlice", [Field("A", S(S(B("int32")))), Field("Z", B("int64"))])))
-    types.append(("deep", g.struct("verifD_MapSlice", [Field("A", M(S(B("int64")))), Field("Z", B("int64"))])))
-    types.append(("deep", g.struct("verifD_MapMap", [Field("A", M(M(B("int64")))), Field("Z", B("int64"))])))
-    types.append(("deep", g.struct("verifD_SliceMap", [Field("A", S(M(B("string")))), Field("Z", B("int64"))])))
-    types.append(("deep", g.struct("verifD_OmitPtr", [Field("A", P(B("string")), 'json:"a,omitempty"'), Field("Z", B("int64"))])))
-    types.append(("deep", g.struct("verifD_OmitSlice", [Field("A", S(B("string")), 'json:"a,omitempty"'), Field("Z", B("int64"))])))
-    types.append(("deep", g.struct("verifD_OmitMap", [Field("A", M(B("int64")), 'json:"a,omitempty"'), Field("Z", B("int64"))])))
-    types.append(("deep", g.struct("verifD_PtrBytes", [Field("A", P(B("bytes"))), Field("Z", B("int64"))])))
-    types.append(("deep", g.struct("verifD_SliceBytes", [Field("A", S(B("bytes"))), Field("Z", B("int64"))])))
-    return types
+    cat["verifInner"] = inner
+    add("nest", "verifN_Struct", [Field("A", inner), Z()])
+    add("nest", "verifN_PtrStruct", [Field("A", P(inner)), Z()])
+    add("nest", "verifN_SliceStruct", [Field("A", S(inner)), Z()])
+    add("nest", "verifN_MapStruct", [Field("A", M(inner)), Z()])
+    add("nest", "verifN_OmitStruct", [Field("A", inner, 'json:"A,omitempty"'), Z()])
+    add("deep", "verifD_PtrPtr", [Field("A", P(P(B("int64")))), Z()])
+    add("deep", "verifD_PtrSlice", [Field("A", P(S(B("int64")))), Z()])
+    add("deep", "verifD_PtrMap", [Field("A", P(M(B("int64")))), Z()])
+    add("deep", "verifD_SlicePtr", [Field("A", S(P(B("int64")))), Z()])
+    add("deep", "verifD_MapPtr", [Field("A", M(P(B("int64")))), Z()])
+    add("deep", "verifD_SliceSlice", [Field("A", S(S(B("int32")))), Z()])
+    add("deep", "verifD_MapSlice", [Field("A", M(S(B("int64")))), Z()])
+    add("deep", "verifD_MapMap", [Field("A", M(M(B("int64")))), Z()])
+    add("deep", "verifD_SliceMap", [Field("A", S(M(B("string")))), Z()])
+    add("deep", "verifD_OmitPtr", [Field("A", P(B("string")), 'json:"A,omitempty"'), Z()])
+    add("deep", "verifD_OmitSlice", [Field("A", S(B("string")), 'json:"A,omitempty"'), Z()])
+    add("deep", "verifD_OmitMap", [Field("A", M(B("int64")), 'json:"A,omitempty"'), Z()])
+    add("deep", "verifD_PtrBytes", [Field("A", P(B("bytes"))), Z()])
+    add("deep", "verifD_SliceBytes", [Field("A", S(B("bytes"))), Z()])
+    return types, cat
+
+
+def reader_pairs_avro(g, cat):
+    """(writer type, target type, group) for C03/C04"""
+    pairs = []
+    Z = lambda: Field("Z", B("int64"), 'json:"z"')
+    # same type, all writer choices
+    for n in ["verifL_Int64", "verifL_String", "verifL_Bytes", "verifL_Bool", "verifL_Float32", "verifL_Float64", "verifL_Int16",
+              "verifO_Int64", "verifO_String", "verifP_Int64", "verifP_String", "verifS_Int64", "verifS_String", "verifS_Bool",
+              "verifM_Int64", "verifM_String", "verifN_Struct", "verifN_PtrStruct", "verifN_SliceStruct", "verifN_MapStruct",
+              "verifD_SlicePtr", "verifD_MapPtr", "verifD_SliceSlice", "verifD_MapSlice", "verifD_SliceBytes", "verifD_OmitSlice", "verifD_OmitMap", "verifTags1"]:
+        pairs.append((cat[n], cat[n], "same"))
+    # integer width / pointer indirection / float width variations
+    pairs.append((cat["verifL_Int64"], cat["verifL_Int"], "width"))
+    pairs.append((cat["verifL_Int64"], cat["verifL_Int32"], "width"))
+    pairs.append((cat["verifL_Int64"], cat["verifL_Int16"], "width"))
+    pairs.append((cat["verifL_Int16"], cat["verifL_Int64"], "width"))
+    pairs.append((cat["verifL_Float32"], cat["verifL_Float64"], "width"))
+    pairs.append((cat["verifS_Int64"], cat["verifS_Int32"], "width"))
+    pairs.append((cat["verifM_Int64"], cat["verifM_Int16"], "width"))
+    pairs.append((cat["verifL_Int64"], cat["verifP_Int64"], "indir"))
+    pairs.append((cat["verifP_Int64"], cat["verifL_Int64"], "indir"))
+    pairs.append((cat["verifP_Int64"], cat["verifD_PtrPtr"], "indir"))
+    pairs.append((cat["verifO_Int64"], cat["verifP_Int64"], "indir"))
+    pairs.append((cat["verifO_String"], cat["verifP_String"], "indir"))
+    pairs.append((cat["verifL_String"], cat["verifP_String"], "indir"))
+    pairs.append((cat["verifS_Int64"], cat["verifD_SlicePtr"], "indir"))
+    pairs.append((cat["verifD_SlicePtr"], cat["verifS_Int64"], "indir"))
+    pairs.append((cat["verifN_Struct"], cat["verifN_PtrStruct"], "indir"))
+    pairs.append((cat["verifN_PtrStruct"], cat["verifN_Struct"], "indir"))
+    pairs.append((cat["verifS_Int64"], cat["verifD_PtrSlice"], "indir"))
+    pairs.append((cat["verifM_Int64"], cat["verifD_PtrMap"], "indir"))
+    # projections: delete / permute / add fields, at depth
+    wide3 = g.struct("verifPr_Full", [Field("A", B("int64")), Field("B", S(B("string"))), Field("C", M(B("int64"))), Field("D", cat["verifInner"]), Field("E", B("float64"))])
+    pr = [
+        g.struct("verifPr_Permuted", [Field("E", B("float64")), Field("D", cat["verifInner"]), Field("C", M(B("int64"))), Field("B", S(B("string"))), Field("A", B("int64"))]),
+        g.struct("verifPr_NoB", [Field("A", B("int64")), Field("C", M(B("int64"))), Field("D", cat["verifInner"]), Field("E", B("float64"))]),
+        g.struct("verifPr_NoC", [Field("A", B("int64")), Field("B", S(B("string"))), Field("D", cat["verifInner"]), Field("E", B("float64"))]),
+        g.struct("verifPr_NoD", [Field("A", B("int64")), Field("B", S(B("string"))), Field("C", M(B("int64"))), Field("E", B("float64"))]),
+        g.struct("verifPr_OnlyE", [Field("E", B("float64"))]),
+        g.struct("verifPr_Added", [Field("N1", B("string")), Field("A", B("int64")), Field("N2", S(B("int64"))), Field("E", B("float64")), Field("N3", P(B("int64")))]),
+        g.struct("verifPr_InnerNoX", [Field("A", B("int64")), Field("D", g.struct("verifInnerNoX", [Field("Y", B("string"), 'json:"y,omitempty"')])), Field("E", B("float64"))]),
+        g.struct("verifPr_InnerNoY", [Field("D", g.struct("verifInnerNoY", [Field("X", B("int64"))])), Field("A", B("int64"))]),
+    ]
+    pairs.append((wide3, wide3, "proj"))
+    for t in pr:
+        pairs.append((wide3, t, "proj"))
+    return pairs
 
 
 def catalogue_null(g):
     types = []
+    cat = {}
+    Z = lambda: Field("Z", B("int64"), 'json:"z"')
+
+    def add(group, name, fields):
+        t = g.struct(name, fields)
+        types.append((group, t))
+        cat[name] = t
+        return t
     for k in NULLS:
         K = k[4:].capitalize()
-        types.append(("nullleaf", g.struct("verifL_Null%s" % K, [Field("A", B(k)), Field("Z", B("int64"))])))
-        types.append(("nullptr", g.struct("verifP_Null%s" % K, [Field("A", P(B(k))), Field("Z", B("int64"))])))
-        types.append(("nullomit", g.struct("verifO_Null%s" % K, [Field("A", B(k), 'json:"a,omitempty"'), Field("Z", B("int64"))])))
-        types.append(("nullslice", g.struct("verifS_Null%s" % K, [Field("A", S(B(k))), Field("Z", B("int64"))])))
-        types.append(("nullmap", g.struct("verifM_Null%s" % K, [Field("A", M(B(k))), Field("Z", B("int64"))])))
-    return types
+        add("nullleaf", "verifL_Null%s" % K, [Field("A", B(k)), Z()])
+        add("nullptr", "verifP_Null%s" % K, [Field("A", P(B(k))), Z()])
+        add("nullomit", "verifO_Null%s" % K, [Field("A", B(k), 'json:"A,omitempty"'), Z()])
+        add("nullslice", "verifS_Null%s" % K, [Field("A", S(B(k))), Z()])
+        add("nullmap", "verifM_Null%s" % K, [Field("A", M(B(k))), Z()])
+    return types, cat
+
+
+def reader_pairs_null(g, cat):
+    pairs = []
+    Z = lambda: Field("Z", B("int64"), 'json:"z"')
+    plain = {
+        "Int": (g.struct("verifW_Int64", [Field("A", B("int64")), Z()]), g.struct("verifW_PInt64", [Field("A", P(B("int64"))), Z()])),
+        "Bool": (g.struct("verifW_Bool", [Field("A", B("bool")), Z()]), g.struct("verifW_PBool", [Field("A", P(B("bool"))), Z()])),
+        "Float": (g.struct("verifW_Float64", [Field("A", B("float64")), Z()]), g.struct("verifW_PFloat64", [Field("A", P(B("float64"))), Z()])),
+        "String": (g.struct("verifW_String", [Field("A", B("string")), Z()]), g.struct("verifW_PString", [Field("A", P(B("string"))), Z()])),
+    }
+    for K, (val, ptr) in plain.items():
+        nl = cat["verifL_Null" + K]
+        pairs.append((nl, nl, "nullsame"))
+        pairs.append((val, nl, "wrap"))   # plain long data into a null.Int target
+        pairs.append((ptr, nl, "wrap"))   # nullable data into a null.Int target
+        pairs.append((nl, ptr, "wrap"))   # null.Int data into *int64
+        pairs.append((nl, val, "wrap"))   # null.Int data into int64 (null leaves zero)
+        pairs.append((cat["verifS_Null" + K], cat["verifS_Null" + K], "nullsame"))
+        pairs.append((cat["verifM_Null" + K], cat["verifM_Null" + K], "nullsame"))
+    return pairs
 
 
 def main():
     ga = Gen("avro")
-    ta = catalogue_avro(ga)
+    ta, cata = catalogue_avro(ga)
     for group, t in ta:
         ga.harness_rt(t, group)
+    for wt, tt, group in reader_pairs_avro(ga, cata):
+        ga.harness_read(wt, tt, group)
+        if natural(wt).has_union() and group in ("same", "indir"):
+            ga.harness_read(wt, tt, group, swap=True)
+    # wide (full 64-bit) values into narrower targets: the fit clause
+    for tn in ("verifL_Int16", "verifL_Int32"):
+        ga.harness_read(cata["verifL_Int64"], cata[tn], "fit", wide=True)
     src = ga.header(['"unsafe"']) + COMMON_HELPERS + "\n".join(ga.out)
     open(os.path.join(OUT, "avro", "zz_verif_gen_cat.go"), "w").write(src)
 
     gn = Gen("null")
-    tn = catalogue_null(gn)
+    tn, catn = catalogue_null(gn)
     for group, t in tn:
         gn.harness_rt(t, group)
+    for wt, tt, group in reader_pairs_null(gn, catn):
+        gn.harness_read(wt, tt, group)
+        if group == "nullsame":
+            gn.harness_read(wt, tt, group, swap=True)
     src = gn.header(['"unsafe"', '', '"github.com/philpearl/avro"', '"github.com/unravelin/null/v5"']) + COMMON_HELPERS + "\n".join(gn.out)
     src = src.replace("func verifHarness_", "func init() { RegisterCodecs() }\n\nfunc verifHarness_", 1)
     open(os.path.join(OUT, "null", "zz_verif_gen_cat.go"), "w").write(src)
